@@ -11,6 +11,11 @@ sys.path.insert(0, VERIF)
 
 def main():
   seed, ncases = int(sys.argv[1]), int(sys.argv[2])
+  # cases whose execution is skipped (they are still GENERATED, so the random stream and every other case stay the same): used by the
+  # parent to continue the sweep after a case that aborted the process
+  skip = {int(x) for x in sys.argv[3].split(",") if x} if len(sys.argv) > 3 else set()
+  import faulthandler
+  faulthandler.enable()   # on an abort the Python-level call site (which mujoco_warp function launched the kernel) goes to stderr
   import numpy as np
   import warp as wp
   wp.config.quiet = True
@@ -98,6 +103,8 @@ def main():
       need_nnz = int(mjd.efc_J_rownnz[:need_efc].sum()) if need_efc and len(mjd.efc_J_rownnz) >= need_efc else need_efc * mjm.nv
       caps["njmax_nnz"] = int(rng.choice([0, 1, 2, max(need_nnz // 2, 0), max(need_nnz - 1, 0), need_nnz]))
     case = {"case": c, "xml": xml, "nworld": nworld, "caps": caps, "qpos": mjd.qpos.tolist(), "qvel": mjd.qvel.tolist(), "sleep": sleep}
+    if c in skip:
+      continue
     print(json.dumps({"begin": case}), flush=True)
     status = "ok"
     try:
